@@ -174,11 +174,11 @@ where
                             if !valid {
                                 continue;
                             }
-                            // Symmetric check: is A's apex inside-or-on B's circumsphere?
+                            // Symmetric check: is A's apex on B's circumsphere?
                             //
-                            // We suppress two co-degenerate artifact classes:
-                            //  • Both-positive: both inspheres are > 0 simultaneously,
-                            //    physically impossible by cofactor antisymmetry.
+                            // Both in-sphere tests being > 0 is what a genuine violation across
+                            // a shared facet looks like (the two normalised signs are equal), so
+                            // that case is reported.  Only the co-degenerate class is suppressed:
                             //  • Co-spherical: A sees V slightly inside (floating-point > 0)
                             //    but B sees A's apex exactly on the sphere (BOUNDARY == 0).
                             //    This happens with near co-spherical point sets in D≥4 where
@@ -187,7 +187,7 @@ where
                             //    the sign; suppressing here is consistent.
                             if matches!(
                                 robust_insphere(&b_points, apex_a_v.point(), config),
-                                Ok(InSphere::INSIDE | InSphere::BOUNDARY)
+                                Ok(InSphere::BOUNDARY)
                             ) {
                                 break 'artifact true;
                             }
